@@ -130,7 +130,7 @@ fn families(a: &Args) -> Vec<Family> {
         wsimple_family("wsimple5", false, WSimpleFam { n: 5, directed: false, loops: false, k: 2, max_edges: None }, 1),
         wsimple_family("wsimple5-3weights", true, WSimpleFam { n: 5, directed: false, loops: false, k: 3, max_edges: None }, 0),
         wsimple_family("wsimple6-unweighted", true, WSimpleFam { n: 6, directed: false, loops: false, k: 1, max_edges: None }, 1),
-        wsimple_family("wsimple6-2weights-le7edges", true, WSimpleFam { n: 6, directed: false, loops: false, k: 2, max_edges: Some(7) }, 0),
+        wsimple_family("wsimple6-2weights-le9edges", true, WSimpleFam { n: 6, directed: false, loops: false, k: 2, max_edges: Some(9) }, 0),
     ]
 }
 
